@@ -578,6 +578,7 @@ func c12ExpandMain(args []string) int {
 	}
 	reg := md.newRegion()
 	refCache := map[string]c12Obs{}
+	drv.StartWatchdog()
 	in := bufio.NewScanner(os.Stdin)
 	in.Buffer(make([]byte, 1<<16), 1<<22)
 	out := bufio.NewWriter(os.Stdout)
@@ -587,7 +588,10 @@ func c12ExpandMain(args []string) int {
 		if json.Unmarshal(in.Bytes(), &hist) != nil {
 			continue
 		}
+		fmt.Fprintf(os.Stderr, "AT %s\n", in.Text())
+		drv.WatchdogBegin(md.name, uint64(len(hist)))
 		line := md.expand(hist, mm.fullDump, refCache, reg, pristine)
+		drv.WatchdogEnd()
 		b, _ := json.Marshal(line)
 		out.Write(b)
 		out.WriteByte('\n')
@@ -611,6 +615,8 @@ func (md *c12Model) search(env *drv.Env, modelIdx, maxDepth int, fullDump bool) 
 		results := make([][]c12ExpLine, nw)
 		var wg sync.WaitGroup
 		var failed atomic.Bool
+		var failMu sync.Mutex
+		var failInfo [][2]string
 		for w := 0; w < nw; w++ {
 			w := w
 			wg.Add(1)
@@ -625,9 +631,22 @@ func (md *c12Model) search(env *drv.Env, modelIdx, maxDepth int, fullDump bool) 
 					inb.WriteByte('\n')
 				}
 				cmd.Stdin = &inb
+				var errb bytes.Buffer
+				cmd.Stderr = &errb
 				outb, err := cmd.Output()
 				if err != nil {
 					failed.Store(true)
+					se := errb.String()
+					last := ""
+					if i := strings.LastIndex(se, "AT "); i >= 0 {
+						last = strings.SplitN(se[i+3:], "\n", 2)[0]
+					}
+					if len(se) > 800 {
+						se = se[len(se)-800:]
+					}
+					failMu.Lock()
+					failInfo = append(failInfo, [2]string{last, se})
+					failMu.Unlock()
 				}
 				sc := bufio.NewScanner(bytes.NewReader(outb))
 				sc.Buffer(make([]byte, 1<<20), 1<<26)
@@ -641,8 +660,14 @@ func (md *c12Model) search(env *drv.Env, modelIdx, maxDepth int, fullDump bool) 
 		}
 		wg.Wait()
 		if failed.Load() {
-			res.viol = append(res.viol, drv.Violation{Scope: md.name, Kind: "crash", Detail: md.name + ": an expansion worker process died (fatal error or hang) at depth " + fmt.Sprint(depth)})
-			res.replays = append(res.replays, map[string]any{"model": md.name, "history": []int{}})
+			for _, fi := range failInfo {
+				var h []int
+				json.Unmarshal([]byte(fi[0]), &h)
+				res.viol = append(res.viol, drv.Violation{Scope: md.name, Kind: "hang-or-crash", Detail: fmt.Sprintf("%s: the process expanding history %v (one more operation appended) hung (> %d s in one step) or died: %s", md.name, md.histNames(h), drv.HangSeconds, fi[1])})
+				res.replays = append(res.replays, map[string]any{"model": md.name, "history": h, "note": "the failing operation is one of the operations enabled after this history"})
+			}
+			res.maxDepth = depth
+			return res // the search cannot continue past a level with lost expansions
 		}
 		var all []c12ExpLine
 		for _, r := range results {
